@@ -315,7 +315,7 @@ pub fn c03(env: &Env) -> i32 {
     }
     let mut parts: Vec<PartReport> = vec![];
     parts.extend(common::run_regress::<C03Case>(env, "crash_points", c03_check));
-    for (name, profile, cases) in [("crash_points", EQUIV, env.tier.pick(32u64, 600)), ("crash_points_small", EQUIV_SMALL, env.tier.pick(64, 160))] {
+    for (name, profile, cases) in [("crash_points", EQUIV, env.tier.pick(32u64, 600)), ("crash_points_small", EQUIV_SMALL, env.tier.pick(64, 110))] {
         parts.push(run_proptest(
             env,
             name,
@@ -415,7 +415,7 @@ pub fn flood_part(env: &Env) -> PartReport {
         env,
         "replica_caches",
         "simulator schedules in which Byzantine validators flood correct replicas with validly signed commit / timeout votes for 3-60 distinct future views per burst (starting at view 0, 5 or 1000), interleaved with normal operation; oracle after every step, n = committee size: both latest-vote maps <= n entries, partial certificates kept for <= n views, <= n^2 accumulators / timeout messages in total. Non-trivial = >= 50 flood messages delivered",
-        PartOpts { cases: env.tier.pick(200, 700), max_shrink_iters: 40, samples: 2 },
+        PartOpts { cases: env.tier.pick(200, 400), max_shrink_iters: 40, samples: 2 },
         || {
             Choices::strategy(400).prop_map(|mut ch| {
                 let mut c = gen_case(&mut ch, &FLOOD);
@@ -906,7 +906,7 @@ pub fn c16(env: &Env) -> i32 {
             "input_channel_threads",
             "the real input channel with 2-4 sender THREADS released together by a spin barrier, each sending 1-6 validly signed messages drawn from 2 signers x 2 kinds x views 0-9 (so that threads collide on the same sender and kind), no consumer while they run, repeated 25 times per case on a fresh channel; \
              oracle (independent of the interleaving, valid for any linearisable channel): afterwards exactly one message per (sender, kind) is pending and it carries the highest view sent for it. Non-trivial = two threads send for the same (sender, kind)",
-            PartOpts { cases: env.tier.pick(300, 1_500), max_shrink_iters: 60, samples: 2 },
+            PartOpts { cases: env.tier.pick(300, 900), max_shrink_iters: 60, samples: 2 },
             || {
                 proptest::collection::vec(proptest::collection::vec((0u8..2, 0u8..2, 0u8..10), 1..6), 2..=4).prop_map(|threads| ChanThreadsCase { threads, reps: 25 })
             },
